@@ -368,6 +368,7 @@ static void emit_header(sbuf_t *o, const char *plane, const char *kind, const ch
   sb_printf(o, "# m4sim engine=fs plane=%s scenario=%s lib=%s\nlib %s\n", plane, kind, lib, lib);
 }
 
+static int g_force_family = -1;
 /* one run index = one case family */
 static void run_case(uint64_t seed, uint64_t idx, const char *tier, const char *outdir, const char *errpath, const char *curpath) {
   rng_t root = rng_make(eng_run_seed(seed, "fs", idx));
@@ -376,7 +377,7 @@ static void run_case(uint64_t seed, uint64_t idx, const char *tier, const char *
   tally_t t; memset(&t, 0, sizeof t); t.hash = FNV0;
   sbuf_t sb = { 0 }, hd = { 0 };
   const char *lib = libname(&rg);
-  int family = (int)(idx % 10);
+  int family = g_force_family >= 0 ? g_force_family : (int)(idx % 10);
   const char *kind = "?";
   long long clk = 1 + (long long)rng_below(&rg, 8000000000ULL) - 2100000000LL; /* 1903 .. 2156 */
   long long jump = (long long)rng_below(&rg, 3) == 0 ? (long long)rng_below(&rg, 100000) - 50000 : 0;
@@ -595,6 +596,7 @@ static int cmd_worker(int argc, char **argv) {
   uint64_t seed = strtoull(argv[2], NULL, 10), first = strtoull(argv[3], NULL, 10), count = strtoull(argv[4], NULL, 10);
   const char *tier = argv[5], *outdir = argv[6];
   double budget = argc > 7 ? atof(argv[7]) : 1e9, t0 = eng_now();
+  if (argc > 8 && !strcmp(argv[8], "writeonly")) g_force_family = 9; /* only the write-side fault plane (used by the C11 check: temporaries released on error paths) */
   char errpath[512], cur[512];
   snprintf(errpath, sizeof errpath, "%s/stderr-%llu.txt", outdir, (unsigned long long)first);
   snprintf(cur, sizeof cur, "%s/cur-%llu.prog", outdir, (unsigned long long)first);
